@@ -479,12 +479,12 @@ pub fn log_cases(thorough: bool) -> Vec<LogCase> {
         l2s.push(3 * B);
         l2s.push(3 * (B - H));
     } else {
-        l2s.extend([0, 1, 6, 7, 8, 16]);
-        l2s.extend([B - H - 1, B - H, B - H + 1, B - H + 7]);
-        l2s.extend([2 * (B - H) - 1, 2 * (B - H), 2 * (B - H) + 1]);
+        l2s.extend(0..=16);
+        l2s.extend((B - H - 8)..=(B - H + 8));
+        l2s.extend((2 * (B - H) - 8)..=(2 * (B - H) + 8));
         l2s.push(3 * B);
     }
-    let l3s: Vec<usize> = if thorough { vec![0, 1, 7, 100, B - H, B + 1] } else { vec![1] };
+    let l3s: Vec<usize> = if thorough { vec![0, 1, 7, 100, B - H, B + 1] } else { vec![0, 1, 100] };
     let mut v = vec![];
     for r in 0..=(if thorough { 32usize } else { 16 }) {
         let l1 = B - H - r;
